@@ -237,7 +237,45 @@ fn c08_from_tx_shape() {
     fgt(pset);
 }
 
-//@ harness: c08_roundtrip_1in_1out class=B tier=quick bound="1 input, 1 output; vout < 2^30; empty script_sig / script witness / script_pubkey (non-empty ones: c08_roundtrip_1in_1out_scripts), no pegin witness; issuance none/explicit amount/explicit keys (symbolic), null issuance has zero nonce+entropy; output explicit value+asset, Null nonce, 2-byte script; no range/surjection proofs" timeout=900
+//@ harness: c08_from_txin_views class=B tier=quick bound="one input, empty script_sig and witness stacks; every vout, is_pegin, sequence; issuance amount and inflation keys each Null or Explicit (symbolic), symbolic blinding nonce and entropy when an issuance is present" timeout=900
+//@ clause: the PSET input built from a transaction input shows the same view of it: is_pegin(), has_issuance(), asset_issuance() (amount, inflation keys, blinding nonce, entropy) agree with the TxIn, the outpoint index carries exactly the folded flag bits, and the flag-stripped index is the original one (the coinbase index 0xffff_ffff carries no flags)
+#[kani::proof]
+#[kani::unwind(34)] // Tweak::from_inner scans its 32 bytes with iter().all()
+#[kani::stub(zffi::secp256k1_ec_seckey_verify, model_ec_seckey_verify)]
+fn c08_from_txin_views() {
+    let s = any_scalars();
+    let t = build_txin::<false, false>(&s);
+    let has_iss = s.iss_amount.is_some() || s.iss_keys.is_some();
+    // the wire format cannot express flags on the coinbase index, nor an index that already has bit 30/31 set
+    kani::assume(s.vout == 0xffff_ffff || s.vout < (1 << 30));
+    kani::assume(s.vout != 0xffff_ffff || (!s.is_pegin && !has_iss));
+    // 0x3fff_ffff with both flags folds to 0xffff_ffff, which the wire format itself cannot tell from the flag-less coinbase index
+    kani::assume(!(s.vout == 0x3fff_ffff && s.is_pegin && has_iss));
+    let want_iss = AssetIssuance {
+        asset_blinding_nonce: t.asset_issuance.asset_blinding_nonce,
+        asset_entropy: t.asset_issuance.asset_entropy,
+        amount: t.asset_issuance.amount,
+        inflation_keys: t.asset_issuance.inflation_keys,
+    };
+    let i = Input::from_txin(t);
+    kani::cover!(s.iss_amount.is_none() && s.iss_keys.is_some());
+    kani::cover!(s.iss_amount.is_some() && s.iss_keys.is_none());
+    kani::cover!(s.is_pegin && has_iss);
+    kani::cover!(s.vout == 0xffff_ffff);
+    assert!(i.is_pegin() == s.is_pegin, "pegin flag view");
+    assert!(i.has_issuance() == has_iss, "issuance flag view");
+    let got = i.asset_issuance();
+    assert!(got.amount == want_iss.amount, "issuance amount view");
+    assert!(got.inflation_keys == want_iss.inflation_keys, "inflation keys view");
+    assert!(eq32(&got.asset_entropy, &want_iss.asset_entropy), "entropy view");
+    assert!(eq32(got.asset_blinding_nonce.as_ref(), want_iss.asset_blinding_nonce.as_ref()), "blinding nonce view");
+    let flags = (if s.is_pegin { 1u32 << 30 } else { 0 }) | (if has_iss { 1u32 << 31 } else { 0 });
+    assert!(i.previous_output_index == s.vout | flags, "folded flags");
+    assert!(i.sequence.map(|q| q.0) == Some(s.sequence));
+    fgt(i);
+}
+
+//@ harness: c08_roundtrip_1in_1out class=B tier=thorough bound="1 input, 1 output; vout < 2^30; empty script_sig / script witness / script_pubkey (non-empty ones: c08_roundtrip_1in_1out_scripts), no pegin witness; issuance none/explicit amount/explicit keys (symbolic), null issuance has zero nonce+entropy; output explicit value+asset, Null nonce, 2-byte script; no range/surjection proofs" timeout=3000
 //@ clause: converting a well-formed transaction to a PSET and extracting it again returns the identical transaction; pegin/issuance flags are folded into previous_output_index and stripped again (outputs restricted to Null nonce — the nonce of an unblinded output is a known finding, isolated below)
 #[kani::proof]
 #[kani::unwind(3)]
@@ -275,7 +313,7 @@ fn c08_roundtrip_pegin_witness() {
     check_roundtrip::<true, false>(&s, confidential::Nonce::Null);
 }
 
-//@ harness: c08_roundtrip_coinbase_prevout class=B tier=quick bound="as c08_roundtrip_1in_1out with vout == 0xffff_ffff, is_pegin false, no issuance (what Decodable for TxIn yields for the all-ones index)" timeout=900
+//@ harness: c08_roundtrip_coinbase_prevout class=B tier=thorough bound="as c08_roundtrip_1in_1out with vout == 0xffff_ffff, is_pegin false, no issuance (what Decodable for TxIn yields for the all-ones index)" timeout=3000
 //@ clause: round trip for an input whose previous output index is 0xffff_ffff (flags are neither added nor stripped there): the extracted input is identical (is_pegin stays false)
 #[kani::proof]
 #[kani::unwind(3)]
@@ -289,7 +327,7 @@ fn c08_roundtrip_coinbase_prevout() {
     check_roundtrip::<false, false>(&s, confidential::Nonce::Null);
 }
 
-//@ harness: c08_roundtrip_unblinded_output_with_nonce class=B tier=quick bound="as c08_roundtrip_1in_1out (no issuance), output has explicit value+asset, empty witness and a Confidential nonce (symbolic key; libsecp key comparison through the assumed model)" timeout=900
+//@ harness: c08_roundtrip_unblinded_output_with_nonce class=B tier=thorough bound="as c08_roundtrip_1in_1out (no issuance), output has explicit value+asset, empty witness and a Confidential nonce (symbolic key; libsecp key comparison through the assumed model)" timeout=3000
 //@ clause: round trip for an unblinded output that carries a nonce (payment to a confidential address before blinding): the extracted output has the same nonce (defect D17, repaired by e2f5c11: from_txout stores the nonce as blinding_key, extract_tx only emitted ecdh_pubkey)
 #[kani::proof]
 #[kani::unwind(3)]
@@ -444,13 +482,13 @@ macro_rules! unique_id_indep {
     };
 }
 
-//@ harness: c08_unique_id_ignores_final_script_sig class=B tier=quick bound="1-in/1-out PSET, explicit output, optional explicit issuance; final_script_sig of 2 symbolic bytes added to one copy" timeout=900
+//@ harness: c08_unique_id_ignores_final_script_sig class=B tier=thorough bound="1-in/1-out PSET, explicit output, optional explicit issuance; final_script_sig of 2 symbolic bytes added to one copy" timeout=3000
 //@ clause: the unique id (the hashed unsigned transaction) is unchanged by adding a final script signature (D2 regression: before the fix the recorded script_sig differed)
 unique_id_indep!(c08_unique_id_ignores_final_script_sig, |p, s| {
     p.inputs[0].final_script_sig = Some(Script::from(vec![s.script_sig[0], s.script_sig[1]]));
 });
 
-//@ harness: c08_unique_id_ignores_sequence class=B tier=quick bound="1-in/1-out PSET; symbolic sequence set on one copy" timeout=900
+//@ harness: c08_unique_id_ignores_sequence class=B tier=thorough bound="1-in/1-out PSET; symbolic sequence set on one copy" timeout=3000
 //@ clause: the unique id is unchanged by adding or changing an input sequence
 unique_id_indep!(c08_unique_id_ignores_sequence, |p, s| {
     p.inputs[0].sequence = Some(Sequence(s.sequence));
@@ -470,7 +508,7 @@ unique_id_indep!(c08_unique_id_ignores_signer_fields, |p, s| {
     p.outputs[0].blinder_index = Some(s.vout);
 });
 
-//@ harness: c08_unique_id_depends_on_prevout class=B tier=quick bound="1-in/1-out PSET; previous_output_index of one copy changed to a different symbolic value (flag bits excluded)" timeout=900
+//@ harness: c08_unique_id_depends_on_prevout class=B tier=thorough bound="1-in/1-out PSET; previous_output_index of one copy changed to a different symbolic value (flag bits excluded)" timeout=3000
 //@ clause: sanity of the recorder (non-vacuity of the independence harnesses): changing transaction-identifying data — the spent output index — does change the hashed unsigned transaction
 #[kani::proof]
 #[kani::stub(TxT::txid, recording_txid)]
